@@ -507,10 +507,13 @@ class C04(Prop):
                 "NV.C04.sizes_bounded", "NV.C04.replace_scan_in_bounds", "NV.C04.sprintf_bounded",
                 "NV.C04.array_size_exact", "NV.C04.sizes_bounded_derived", "NV.C04.map_count_exact",
                 "NV.C04.bridge_stackSlack", "NV.C04.bridge_depthTest", "NV.C04.bridge_clamp", "NV.C04.bridge_safeTick",
-                "NV.C04.bridge_esBits", "NV.C04.bridge_widths"]
+                "NV.C04.bridge_esBits", "NV.C04.bridge_widths",
+                "NV.C04.sizes_bounded_round4", "NV.C04.compose_count_exact", "NV.C04.save_depth_bounded",
+                "NV.C04.loop_iterations_charged", "NV.C04.bridge_backwardOps", "NV.C04.bridge_saveWalk"]
     witness_theorems = ["NV.C04.eval_unbounded_at_zero_budget", "NV.C04.eval_bound_attained_through_safe_apply",
                         "NV.C04.sprintf_exceeds_small_limit", "NV.C04.array_size_wraps",
-                        "NV.C04.buffer_size_wraps", "NV.C04.repeat_string_old_wraps"]
+                        "NV.C04.buffer_size_wraps", "NV.C04.repeat_string_old_wraps",
+                        "NV.C04.compose_count_wraps_16", "NV.C04.save_variable_old_exceeds"]
     consts = CONSTS
     const_headers = ["src/interpret.h", "lib/rc/rc.h", "lib/lpc/include/runtime_config.h", "lpc/array.h", "lpc/buffer.h",
                      "lpc/mapping.h", "src/stralloc.h", "src/backend.h"]
@@ -616,9 +619,24 @@ class C04(Prop):
         limit = rng.choice([8, 20, 50, 100])
         present, ops, nxt = [], [], 0
         count = 0                               # model of the size, to steer towards the limit
+        certain = True                          # False after a partially applied `+=`: which keys went in is not known
         for _ in range(rng.range(3, 10)):
-            k = rng.weighted([("inew", 4), ("iold", 2), ("abs", 5)])
-            if k == "iold" and present:
+            k = rng.weighted([("inew", 4), ("iold", 2), ("abs", 5), ("cmp", 3)])
+            if k == "cmp":
+                # m *= m2 (compose_mapping in place): the nodes whose value (= key) is a key of m2 stay
+                how = rng.weighted([("self", 2), ("none", 2), ("part", 4 if (certain and present) else 0)])
+                if how == "self":
+                    ops.append("cs:%d" % count)
+                elif how == "none":
+                    ops.append("c0:0:0")
+                    present, count, certain = [], 0, True
+                else:
+                    lo = rng.choice(present) - rng.choice([0, 0, 1, 2])
+                    n = min(limit, rng.choice([1, 2, 5, limit // 2, limit]))
+                    kept = [x for x in present if lo <= x < lo + n]
+                    ops.append("c%d:%d:%d" % (lo, n, len(kept)))
+                    present, count = kept, len(kept)
+            elif k == "iold" and present:
                 ops.append("i%do" % rng.choice(present))
             elif k == "abs":
                 n = rng.choice([0, 1, 3, limit // 2, limit - count, limit - count + 1, limit - count + 3, limit])
@@ -635,6 +653,7 @@ class C04(Prop):
                     count += new
                 else:
                     count = limit                           # partially applied: exactly MAX keys
+                    certain = False
                 nxt = frm + n + 1000
             else:
                 ops.append("i%dn" % nxt)
@@ -742,6 +761,25 @@ class C04(Prop):
         B.append(self.sizes_case("b-sz-wide", {"array": 70000, "buffer": 200000, "string": 100000},
                                  ["allocate 65535", "allocate_buffer 65535", "join 60000 30000", "sprintf 30000 30000", "sprintf 60000 40000"]))
         B.append(self.sizes_case("b-sz-sprintf", {"string": 200}, ["sprintf 100 100", "sprintf 100 101", "sprintf 200 100", "sprintf 1 1"]))
+        # round 4: mapping * mapping (repaired: the 16-bit `deleted` counter), save / restore_variable, regexp, reg_assoc
+        B.append(self.sizes_case("b-sz-compose-wide", {"mapping": 70000, "array": 80000},
+                                 ["map_compose 70000 0 0", "map_compose_eq 70000 10 5", "map_compose 65536 3 0", "map_compose 65535 3 0"]))
+        B.append(self.sizes_case("b-sz-compose", {"mapping": 100},
+                                 ["map_compose 50 20 7", "map_compose_eq 50 20 20", "map_compose 100 100 100", "map_compose 0 5 0",
+                                  "map_compose 101 5 0", "map_compose_eq 30 0 0"]))
+        B.append(self.sizes_case("b-sz-save", {"string": 100, "array": 200, "mapping": 50},
+                                 ["save_array 48", "save_array 49", "save_array 0", "save_string 98 0", "save_string 99 0", "save_string 49 1",
+                                  "save_string 50 1", "save_mapping 5", "save_mapping 10", "save_nested 20", "save_nested 21", "save_nested 1"]))
+        B.append(self.sizes_case("b-sz-walk-depth", {"string": 1000, "array": 200},
+                                 ["save_nested 25", "save_nested 26", "save_nested 27", "copy_nested 25", "copy_nested 26", "copy_nested 1",
+                                  "restore_nested 25", "restore_nested 26", "restore_nested 100", "restore_nested 200", "restore_nested 201"]))
+        B.append(self.sizes_case("b-sz-restore", {"string": 1000, "array": 100, "mapping": 20},
+                                 ["restore_array 100", "restore_array 101", "restore_array 0", "restore_array 498", "restore_array 499",
+                                  "restore_mapping 20", "restore_mapping 21", "restore_mapping 0"]))
+        B.append(self.sizes_case("b-sz-regexp", {"string": 1000, "array": 100},
+                                 ["regexp 100 50 1", "regexp 100 51 1", "regexp 100 100 0", "regexp 100 30 2", "regexp 100 49 3", "regexp 100 50 3",
+                                  "regexp 0 0 1", "regexp 101 0 0", "reg_assoc 49", "reg_assoc 50", "reg_assoc 0", "reg_assoc 1"]))
+        B.append(self.mapseq_case("b-map-compose", 20, ["a100:15:15", "c105:5:5", "i300n", "cs:6", "a400:20:20", "c0:0:0", "i1n", "a500:19:19", "i2n"]))
         return B
 
     def gen_shape(self, rng, depth, st):
@@ -820,7 +858,33 @@ class C04(Prop):
                               ("explode0", 1), ("aggregate", 1), ("allocate_buffer", 3), ("add_buffer", 3),
                               ("map_insert", 3), ("map_add", 3), ("map_aggregate", 1), ("join", 4), ("join_eq", 2),
                               ("join_self", 2), ("join_num", 1), ("num_join", 1), ("repeat", 5), ("implode", 3),
-                              ("replace", 3), ("sprintf", 1), ("derived", 6)])
+                              ("replace", 3), ("sprintf", 1), ("derived", 6), ("round4", 7)])
+            if k == "round4":
+                d = rng.choice(["map_compose", "map_compose_eq", "save_array", "save_string", "save_mapping", "save_nested",
+                                "copy_nested", "restore_nested", "restore_array", "restore_mapping", "regexp", "reg_assoc"])
+                if d in ("map_compose", "map_compose_eq"):
+                    c1, c2 = rng.range(0, lm), rng.range(0, lm)
+                    cmds.append("%s %d %d %d" % (d, c1, c2, rng.choice([0, 1, min(c1, c2) // 2, min(c1, c2)])))
+                elif d == "save_array":
+                    cmds.append("save_array %d" % max(0, rng.choice([0, 1, (ls - 4) // 2, (ls - 4) // 2 + 1, la, la + 1, ls])))
+                elif d == "save_string":
+                    cmds.append("save_string %d %d" % (max(0, rng.choice([0, 1, ls - 3, ls - 2, ls - 1, ls, (ls - 2) // 2, (ls - 2) // 2 + 1])), rng.below(2)))
+                elif d == "save_mapping":
+                    cmds.append("save_mapping %d" % rng.choice([0, 1, 5, 10, 12]))
+                elif d in ("save_nested", "copy_nested"):
+                    cmds.append("%s %d" % (d, rng.choice([1, 2, 10, 24, 25, 26, 27, 40])))
+                elif d == "restore_nested":
+                    cmds.append("restore_nested %d" % rng.choice([1, 2, 10, 26, 40, max(1, (ls - 4) // 5), max(1, (ls - 4) // 5 + 2)]))
+                elif d == "restore_array":
+                    cmds.append("restore_array %d" % max(0, rng.choice([0, 1, la, la + 1, (ls - 4) // 2, (ls - 4) // 2 + 1])))
+                elif d == "restore_mapping":
+                    cmds.append("restore_mapping %d" % min(400, max(0, rng.choice([0, 1, 5, lm - 1, lm, lm + 1]))))
+                elif d == "regexp":
+                    n_ = min(near(la, False), la + 1, 3000)
+                    cmds.append("regexp %d %d %d" % (n_, rng.choice([0, 1, n_ // 2, n_, la // 2, la // 2 + 1]), rng.below(4)))
+                else:
+                    cmds.append("reg_assoc %d" % min(ls, max(0, rng.choice([0, 1, (la - 1) // 2, (la - 1) // 2 + 1, la]))))
+                continue
             if k == "derived":
                 d = rng.choice(["copy_array", "copy_mapping", "sort_array", "map_array", "lower_case", "filter_array",
                                 "unique_array", "array_sub", "array_and", "keys", "values", "allocate_mapping", "filter_mapping", "map_mapping"])
@@ -942,7 +1006,7 @@ class C04(Prop):
                 d = ctor.setdefault(nme, {"ok": 0, "err": 0, "zero": 0})
                 d["err" if o == "sz err" else "zero" if o == "sz ok -1" else "ok"] += 1
         h["constructor_outcomes"] = dict(sorted(ctor.items()))
-        mp = {"absorb_ok": 0, "absorb_err": 0, "insert_ok": 0, "insert_err": 0}
+        mp = {"absorb_ok": 0, "absorb_err": 0, "insert_ok": 0, "insert_err": 0, "compose_ok": 0, "compose_err": 0}
         for c in cases:
             if c.meta.get("kind") != "mapseq":
                 continue
@@ -951,7 +1015,7 @@ class C04(Prop):
             if out and '"' in out[0]:
                 flags = out[0].split('"')[1].split(":")[0]
                 for o, f in zip(ops, flags):
-                    mp[("absorb" if o[0] == "a" else "insert") + ("_err" if f == "e" else "_ok")] += 1
+                    mp[("absorb" if o[0] == "a" else "compose" if o[0] == "c" else "insert") + ("_err" if f == "e" else "_ok")] += 1
         h["mapseq_ops"] = mp
         for c in cases:
             k = c.meta.get("kind")
